@@ -221,8 +221,9 @@ def render_lib(defs: List[Def], extra='') -> str:
     return '#![allow(dead_code, unused_imports, unexpected_cfgs, clippy::all)]\n' + CB_LOG_ITEM + '\n'.join(render_module(d) for d in defs) + extra
 
 
-def render_replay_main(defs: List[Def]) -> str:
-    """a native driver: `replay <def id> <hex input> [partial]` prints one line per item"""
+def render_replay_main(defs: List[Def], ident: str = '') -> str:
+    """a native driver: `replay <def id> <hex input> [partial]` prints one line per item;
+    `replay --ident` prints `ident` (the hash of the sources it was built from, checked after every build)"""
     arms = []
     for d in defs:
         conv = 'std::str::from_utf8(data).expect("valid utf8")' if d.utf8 else 'data'
@@ -255,6 +256,7 @@ fn run<'s, T: Logos<'s> + std::fmt::Debug>(src: &'s T::Source, partial: bool, st
 }
 fn main() {
     let a: Vec<String> = std::env::args().collect();
+    if a.len() > 1 && a[1] == "--ident" { println!("IDENT ''' + ident + '''"); return; }
     let data: Vec<u8> = (0..a[2].len() / 2).map(|i| u8::from_str_radix(&a[2][2 * i..2 * i + 2], 16).unwrap()).collect();
     let data: &'static [u8] = Box::leak(data.into_boxed_slice());
     let partial = a.len() > 3 && a[3] == "partial";
